@@ -91,8 +91,7 @@ func classifyEnum(c *Ctx, pk, typ string) *enumShape {
 		// zero
 		zero := false
 		for _, iff := range ifsIn(m) {
-			if ex(iff.Cond) == "(recv == 0)" {
-				tb := iff.Block().Succs[0]
+			if tb, _, hit := succWhen(iff, "(recv == 0)"); hit {
 				if ret, ok := tb.Instrs[len(tb.Instrs)-1].(*ssa.Return); ok && ex(ret.Results[0]) == "[]byte(\"0\")" {
 					zero = true
 				}
